@@ -290,6 +290,22 @@ def main(tier, seed, scale=1.0):
                       {"miri.txt": err, "crate.rs": mprogs[b].source()})
     runs.append(("miri", mobs, mall))
     chk.extra["miri_processes"] = len(mprogs)
+    if tier == "thorough":
+        # AddressSanitizer on optimised code: the union impls read size_of::<Self>() raw bytes
+        acases = cases[:int(600 * scale)]
+        aprogs = progs_for(acases, NCPU)
+        try:
+            aobs, areports, adrop = BH.run_asan("c20a", aprogs)
+            for b, err in areports.items():
+                m = re.search(r"ERROR: AddressSanitizer: ([^\n]*)", err)
+                chk.violation("asan|%s" % re.sub(r"0x[0-9a-f]+|\d+", "N", m.group(1) if m else "?")[:70],
+                              "AddressSanitizer report in a union impl (bin %s)\n%s" % (b, err[:3000]),
+                              {"asan.txt": err, "crate.rs": aprogs[b].source()})
+            runs.append(("asan-release", aobs, adrop))
+            chk.extra["asan_processes"] = len(aprogs)
+        except Exception as e:
+            chk.inconc("asan-unavailable")
+            log("C20: ASan run failed: %s" % e)
     bad = set()
     for which, obs, dall in runs:
         mp = {c[0]: c[3] for c in mcases}
@@ -300,6 +316,8 @@ def main(tier, seed, scale=1.0):
                 if cid not in mp:
                     continue
                 pats = mp[cid]
+            if which == "asan-release" and obs.get(cid) is None:
+                continue
             files = {"case.rs": module(cid, td, text, pats, cid.startswith("x"))}
             if cid in dall:
                 chk.inconc("does-not-compile (see C01)")
